@@ -53,6 +53,7 @@ Nothing is left unproved; no statement of this file is assumed.
 import Restful.Lemmas.Mime
 import Restful.Lemmas.MimeOWS
 import Restful.Lemmas.MimeClass
+import Restful.Lemmas.StateShape
 namespace Restful
 namespace Props
 open Str Mime
@@ -339,6 +340,13 @@ example :
       entityWriter [] P reg mimeJSON = [mimeXML] ∧ entityWriter [' '] P reg mimeJSON = [mimeJSON] ∧
       routerAdmits [' '] P = false := by
   decide
+
+/-! The frame condition (Lemmas/StateShape.lean): the code has exactly the state this property's model
+    accounts for — no further package-level variable, struct type or field; constants as modelled. -/
+-- also: Restful.StateShape.globals_shape
+-- also: Restful.StateShape.consts_shape
+-- also: Restful.StateShape.response_shape
+-- also: Restful.StateShape.entity_shape
 
 end Props
 end Restful
